@@ -32,7 +32,7 @@ const modPath = "github.com/trustbloc/sidetree-go"
 const rtPath = modPath + "/pkg/verifrt"
 
 type stats struct {
-	Files, MapRanges, MapRangesSkipped, SyncImports, AtomicImports, FieldEvents, GlobalEvents, MapEvents, Unmodelled int
+	Files, MapRanges, MapRangesSkipped, SyncImports, AtomicImports, FieldEvents, GlobalEvents, MapEvents, SliceEvents, Unmodelled int
 	UnmodelledSites                                                                                                  []string
 	SkippedRanges                                                                                                    []string
 }
@@ -334,7 +334,13 @@ func (in *inst) rangeStmt(r *ast.RangeStmt) []ast.Stmt {
 		if _, isChan := tv.Type.Underlying().(*types.Chan); isChan {
 			in.unmodelled(r)
 		}
-		return in.exprEvents(r.X)
+		pre := in.exprEvents(r.X)
+		if id, blank := r.Value.(*ast.Ident); in.has("A") && in.isSlice(r.X) && pure(r.X) && r.Value != nil && !(blank && id.Name == "_") {
+			in.needRT = true
+			in.st.SliceEvents++
+			pre = append(pre, evStmt("SliceAll", closure(r.X), boolLit(false), strLit(in.site(r))))
+		}
+		return pre
 	}
 	var pre []ast.Stmt
 	if in.has("A") && pure(r.X) {
@@ -439,13 +445,58 @@ func closure(e ast.Expr) ast.Expr {
 		Body: &ast.BlockStmt{List: []ast.Stmt{&ast.ReturnStmt{Results: []ast.Expr{e}}}}}
 }
 
+// intClosure: func() int { return int(e) }
+func intClosure(e ast.Expr) ast.Expr {
+	return &ast.FuncLit{Type: &ast.FuncType{Params: &ast.FieldList{}, Results: &ast.FieldList{List: []*ast.Field{{Type: ast.NewIdent("int")}}}},
+		Body: &ast.BlockStmt{List: []ast.Stmt{&ast.ReturnStmt{Results: []ast.Expr{&ast.CallExpr{Fun: ast.NewIdent("int"), Args: []ast.Expr{e}}}}}}}
+}
+
+func intLit(n int) ast.Expr { return &ast.BasicLit{Kind: token.INT, Value: strconv.Itoa(n)} }
+
+// pureInt: an index expression that can be evaluated again: literals, pure operands, len(pure), + - * of those.
+func pureInt(e ast.Expr) bool {
+	switch t := e.(type) {
+	case *ast.BasicLit:
+		return t.Kind == token.INT
+	case *ast.ParenExpr:
+		return pureInt(t.X)
+	case *ast.BinaryExpr:
+		return (t.Op == token.ADD || t.Op == token.SUB || t.Op == token.MUL) && pureInt(t.X) && pureInt(t.Y)
+	case *ast.CallExpr:
+		if id, ok := t.Fun.(*ast.Ident); ok && id.Name == "len" && len(t.Args) == 1 {
+			return pure(t.Args[0])
+		}
+		return false
+	}
+	return pure(e)
+}
+
+func (in *inst) isSlice(e ast.Expr) bool {
+	tv, ok := in.pkg.TypesInfo.Types[e]
+	if !ok || tv.Type == nil {
+		return false
+	}
+	_, sl := tv.Type.Underlying().(*types.Slice)
+	return sl
+}
+
+func (in *inst) isInteger(e ast.Expr) bool {
+	tv, ok := in.pkg.TypesInfo.Types[e]
+	if !ok || tv.Type == nil {
+		return false
+	}
+	b, isBasic := tv.Type.Underlying().(*types.Basic)
+	return isBasic && b.Info()&types.IsInteger != 0
+}
+
 func evStmt(fn string, args ...ast.Expr) ast.Stmt {
 	return &ast.ExprStmt{X: &ast.CallExpr{Fun: sel("verifrt", fn), Args: args}}
 }
 
 type access struct {
-	kind  string // F G M
+	kind  string // F G M | SI (slice index) SA (append) SR (whole slice) SC (copy)
 	base  ast.Expr
+	aux   ast.Expr // SI: index, SA: number of appended elements, SC: source
 	name  string
 	write bool
 	node  ast.Node
@@ -510,6 +561,9 @@ func (in *inst) emit(acc []access) []ast.Stmt {
 		if a.base != nil {
 			key += "|" + exprString(a.base)
 		}
+		if a.aux != nil {
+			key += "|" + exprString(a.aux)
+		}
 		if seen[key] {
 			continue
 		}
@@ -525,6 +579,18 @@ func (in *inst) emit(acc []access) []ast.Stmt {
 		case "M":
 			in.st.MapEvents++
 			out = append(out, evStmt("MapAcc", closure(a.base), boolLit(a.write), strLit(in.site(a.node))))
+		case "SI":
+			in.st.SliceEvents++
+			out = append(out, evStmt("SliceIdx", closure(a.base), intClosure(a.aux), boolLit(a.write), strLit(in.site(a.node))))
+		case "SA":
+			in.st.SliceEvents++
+			out = append(out, evStmt("SliceAppend", closure(a.base), intClosure(a.aux), strLit(in.site(a.node))))
+		case "SR":
+			in.st.SliceEvents++
+			out = append(out, evStmt("SliceAll", closure(a.base), boolLit(a.write), strLit(in.site(a.node))))
+		case "SC":
+			in.st.SliceEvents++
+			out = append(out, evStmt("SliceCopy", closure(a.base), closure(a.aux), strLit(in.site(a.node))))
 		}
 	}
 	return out
@@ -546,6 +612,9 @@ func (in *inst) collectLHS(l ast.Expr, acc *[]access) {
 	case *ast.IndexExpr:
 		if in.isMap(t.X) && pure(t.X) {
 			*acc = append(*acc, access{kind: "M", base: t.X, write: true, node: t})
+		}
+		if in.isSlice(t.X) && pure(t.X) && pureInt(t.Index) && in.isInteger(t.Index) {
+			*acc = append(*acc, access{kind: "SI", base: t.X, aux: t.Index, write: true, node: t})
 		}
 		in.collect(t.X, false, acc)
 		in.collect(t.Index, false, acc)
@@ -635,6 +704,9 @@ func (in *inst) collect(e ast.Expr, _ bool, acc *[]access) {
 		if in.isMap(t.X) && pure(t.X) {
 			*acc = append(*acc, access{kind: "M", base: t.X, node: t})
 		}
+		if in.isSlice(t.X) && pure(t.X) && pureInt(t.Index) && in.isInteger(t.Index) {
+			*acc = append(*acc, access{kind: "SI", base: t.X, aux: t.Index, node: t})
+		}
 		in.collect(t.X, false, acc)
 		in.collect(t.Index, false, acc)
 	case *ast.SliceExpr:
@@ -650,6 +722,16 @@ func (in *inst) collect(e ast.Expr, _ bool, acc *[]access) {
 			if _, isBuiltin := in.pkg.TypesInfo.Uses[id].(*types.Builtin); isBuiltin {
 				if (id.Name == "len" || id.Name == "delete") && in.isMap(t.Args[0]) && pure(t.Args[0]) {
 					*acc = append(*acc, access{kind: "M", base: t.Args[0], write: id.Name == "delete", node: t})
+				}
+				if id.Name == "append" && in.isSlice(t.Args[0]) && pure(t.Args[0]) {
+					if !t.Ellipsis.IsValid() {
+						*acc = append(*acc, access{kind: "SA", base: t.Args[0], aux: intLit(len(t.Args) - 1), write: true, node: t})
+					} else if len(t.Args) == 2 && pure(t.Args[1]) {
+						*acc = append(*acc, access{kind: "SA", base: t.Args[0], aux: &ast.CallExpr{Fun: ast.NewIdent("len"), Args: []ast.Expr{t.Args[1]}}, write: true, node: t})
+					}
+				}
+				if id.Name == "copy" && len(t.Args) == 2 && in.isSlice(t.Args[0]) && pure(t.Args[0]) && pure(t.Args[1]) {
+					*acc = append(*acc, access{kind: "SC", base: t.Args[0], aux: t.Args[1], write: true, node: t})
 				}
 			}
 		}
